@@ -246,6 +246,22 @@ def judge(ctx, case):
         variants.append((name, tx if tx is not None else tx0, value if val is None else val, un if un is not None else unlocking_of(sigs), lk if lk is not None else sc.locking))
 
     add("unmodified")
+    if fam == "multisig" and len(signers) >= 2:
+        # every signature valid for its OWN flag byte (the flag selects the preimage per signature)
+        mixed = []
+        for j, si in enumerate(signers):
+            f2 = FLAGS[(FLAGS.index(flag) + 1 + 5 * j) % 12] if j else flag
+            try:
+                dj = sc.digest(tx0, f2, value)
+            except sighash.NoSingleOutput:
+                mixed = None
+                break
+            ej = ec.sign_det(sc.keys[si], dj)
+            mixed.append(ec.der_encode(ej[0], ej[1]) + bytes([f2]))
+        if mixed:
+            add("multisig signatures with different flag bytes", un=unlocking_of(mixed))
+            # and the second signature's flag byte swapped without re-signing
+            add("multisig second signature flag byte swapped", un=unlocking_of([sigs[0], sigs[1][:-1] + bytes([FLAGS[(FLAGS.index(flag) + 3) % 12]])] + sigs[2:]))
 
     def tx_with(f):
         t = {"version": tx0["version"], "locktime": tx0["locktime"], "ins": [dict(i) for i in tx0["ins"]], "outs": [dict(o) for o in tx0["outs"]]}
